@@ -10,14 +10,21 @@ open IGVerif
 /-- a nested statement is a complete statement of its own: the field of its symbol holds the
     meaning of the inner statement, whatever that is (any depth) -/
 theorem nested_is_full_statement (h : Hdr) (inner : Stmt) (f : Nat) (hf : h.sym.complex = some f) :
-    denoteS (.mk [.nested h inner]) = sortFields [(f, .stmt (hdrMeta h {}) (denoteS inner))] := by
+    denoteS (.mk [.nested h inner]) = sortFields [(f, nestedNode h inner)] := by
   simp [denoteS, denoteSimple, denoteCombos, denoteNested, hf, addField]
+
+/-- … and that value is the inner statement parsed by the same function as a top-level one
+    (when the inner statement has no component-pair combination; with one, see C03) -/
+theorem nested_value_is_inner_statement (h : Hdr) (ips : List Part) (hp : pairsIn (denoteS (.mk ips)) ips = none) :
+    nestedNode h (.mk ips) = .stmt (hdrMeta h {}) (denoteS (.mk ips)) := by
+  simp only [denoteS] at hp
+  simp [nestedNode, hp, denoteS]
 
 /-- several nested statements of one symbol are conjoined in source order -/
 theorem two_nested_conjoined (h₁ h₂ : Hdr) (s₁ s₂ : Stmt) (f : Nat)
     (hf₁ : h₁.sym.complex = some f) (hf₂ : h₂.sym.complex = some f) :
     denoteS (.mk [.nested h₁ s₁, .nested h₂ s₂]) =
-      sortFields [(f, combineN opAND (.stmt (hdrMeta h₁ {}) (denoteS s₁)) (.stmt (hdrMeta h₂ {}) (denoteS s₂)))] := by
+      sortFields [(f, combineN opAND (nestedNode h₁ s₁) (nestedNode h₂ s₂))] := by
   have e1 : (str "[XOR]" = ([] : Str)) = False := by decide
   have e2 : (str "[OR]" = ([] : Str)) = False := by decide
   simp [denoteS, denoteSimple, denoteCombos, denoteNested, hf₁, hf₂, addField, nestedOp, countNested, Part.fillerText,
@@ -27,7 +34,7 @@ theorem two_nested_conjoined (h₁ h₂ : Hdr) (s₁ s₂ : Stmt) (f : Nat)
 theorem two_nested_written_operator (h₁ h₂ : Hdr) (s₁ s₂ : Stmt) (f : Nat)
     (hf₁ : h₁.sym.complex = some f) (hf₂ : h₂.sym.complex = some f) :
     denoteS (.mk [.nested h₁ s₁, .filler (str "[XOR]"), .nested h₂ s₂]) =
-      sortFields [(f, combineN opXOR (.stmt (hdrMeta h₁ {}) (denoteS s₁)) (.stmt (hdrMeta h₂ {}) (denoteS s₂)))] := by
+      sortFields [(f, combineN opXOR (nestedNode h₁ s₁) (nestedNode h₂ s₂))] := by
   have : contains (str "[XOR]") (str "[XOR]") = true := by decide
   simp [denoteS, denoteSimple, denoteCombos, denoteNested, hf₁, hf₂, addField, nestedOp, countNested, Part.fillerText, this]
 
